@@ -193,6 +193,11 @@ func cmdScan(args []string) {
 				continue
 			}
 			if err != nil {
+				if _, isExplicit := explicit[pv]; isExplicit {
+					// an explicit vector (e.g. a user rule file written by the harness) must load
+					fmt.Fprintf(os.Stderr, "HARNESS: vector %s: constructor of %s failed: %v\n", pv, info.Name, err)
+					os.Exit(3)
+				}
 				cnt.Add("ctor_errors", 1)
 				continue
 			}
@@ -231,8 +236,11 @@ func cmdScan(args []string) {
 					cnt.Add("checks", 1)
 					if pi != nil {
 						key := "panic:" + c.Info.Name + ":" + pi.RepoFrame
-						if pi.RepoFrame == "" {
+						if pi.RepoFrame == "" || strings.HasPrefix(pi.RepoFrame, "github.com/go-critic/go-critic/linter.") {
 							key = "panic:" + c.Info.Name + ":dep:" + pi.DepFrame
+						} else if pi.DepFrame != "" && pi.DepFrame != pi.RepoFrame {
+							// the panic was raised inside a dependency called from the repository frame
+							key += ":in:" + pi.DepFrame
 						}
 						out.Emit(core.V("C01", key, fmt.Sprintf("%s panicked on %s: %s", c.Info.Name, path, pi.Value),
 							map[string]interface{}{"checker": c.Info.Name, "file": path, "pv": pv, "params": over[c.Info.Name],
@@ -252,7 +260,11 @@ func cmdScan(args []string) {
 						}
 						bad := fo.CheckDiag(d, w.Pos.IsValid())
 						if len(bad) > 0 {
-							key := "diag:" + c.Info.Name + ":" + strings.Join(bad, "+")
+							who := c.Info.Name
+							if strings.HasPrefix(pv, "dyn-") {
+								who += "@" + pv // user rule files: the vector names the rule file
+							}
+							key := "diag:" + who + ":" + strings.Join(bad, "+")
 							out.Emit(core.V("C07", key, fmt.Sprintf("%s at %s:%d:%d: %s [%s]", c.Info.Name, path, d.Line, d.Col, d.Text, strings.Join(bad, ",")),
 								map[string]interface{}{"diag": d, "file": path, "pv": pv, "problems": bad}))
 						}
